@@ -1088,4 +1088,8 @@ def replay(ctx, case):
 FINDINGS = {
     # only reachable with STRICT_METAENV: stale meta variables in trails of steps skipped after a metadata-only edit
     "C14-stale-metaenv": lambda sig, case, detail="": sig == "metaenv-stale-after-metadata-only-edit",
+    # the relocatable flag changes the Build-Id (path tag) but not the Variant-Id: the package is not rebuilt and keeps its
+    # old trail, while the trails of rebuilt dependents are derived from the new Build-Id
+    "C14-stale-build-id-after-relocatable-change": lambda sig, case, detail="": sig == "build-id-wrong" and any(
+        isinstance(e, list) and e and e[0] == "flag" and e[2] % 3 == 0 for e in (case.get("edits") or [])),
 }
